@@ -65,6 +65,21 @@ CHECKS = {
    design_ref='DESIGN.md 6/C18',
    note='Float64/float32 behaviour is not proved (by design): three float-resolution / overflow known findings (dynamic range beyond float64 resolution, infeasible margin absorbed at large magnitude, labels near float64 max); weak monotonicity and finiteness are still enforced on those inputs. The interpolation branch of the half-rank inverse for unobserved values is not proved. Four defects repaired by fix: commits.',
    technique='Lean 4 + Mathlib ordered-field proofs (list induction, linarith/field_simp) + differential correspondence with Float and exact-rational model instances'),
+ 'C12': dict(
+   text='Lean 4 proofs over all histories of create / forward status change / delete / update (the policy\'s two loader calls) in four policy modes (policy kept alive; rebuilt per request with the incorporated-id set restored from study metadata in any order; state lost -> clear; stateless DesignerPolicy): every update\'s active list equals the ACTIVE trials of that moment (no hypothesis); each update\'s completed list is EXACTLY the trials completed now and not given to that designer lineage before, hence every completed trial is delivered exactly once — by induction over histories with the invariant inc = delivered so far ⊆ {1..max}, under the hypothesis that no id is handed out twice (the repaired loader) / that the top trial is never deleted (the loader as written, pigeonhole argument); restore-from-metadata equals the live policy; the stateless policy delivers everything; after state loss a fresh designer gets every completed trial once; the full statement without the hypothesis is a def with two kernel-checked counterexamples. Tie: a recording designer hosted by the real PythiaServicer through a PolicyFactory (PartiallySerializable / Serializable / stateless policies; state through real study metadata; RAM + SQLite) and by InRamPolicySupporter; after every API call the trial table, the persisted id list and the full delivery log are compared with the model; the Lean predicates judge the real log.',
+   design_ref='DESIGN.md 6/C12',
+   note='Known finding: the service re-uses the id of a deleted max-id trial, whose successor is never delivered (needs ids that are never handed out twice = datastore design change). One defect repaired by a fix: commit (length shortcut of the loader). Designer-internal use of the delivered trials is not modelled.',
+   technique='Lean 4 theorem proving (invariant by induction over operation histories, simulation restored ≃ live) + recording-designer correspondence check'),
+ 'C16': dict(
+   text='Lean 4 proofs over an exact model of Python\'s value zoo (str | int | float as exact rational or nan/±inf | bool with ==, <=, float(), int(), round, truthiness) and of ParameterConfig.factory, the add_* builders, SearchSpace.add, contains/assert_contains and the SequentialParameterBuilder walk: the full membership biconditional (contains = true iff exactly the names of the space, each value type-compatible and inside its domain, written directly from the property text); a conditional space is refused, never answered; factory output is normalised (strictly sorted duplicate-free non-empty feasible values, finite ordered bounds, inferred type) and each invalid class (empty name, both/duplicate/mixed/non-finite feasible values, bad bounds, ill-typed default, children under a continuous parameter, duplicate name in a subspace) is rejected; the builder walk over a conditional tree of ANY depth yields exactly the recursively defined active parameters, each once (DFS = preorder, BFS = a permutation), and terminates; add_trial reaches the service only for members. Tie: real builders/factory/contains/builder walk/clients.Study.add_trial (RAM + SQLite) on type-directed definitions (valid, single-fault, malformed) and near-miss assignments, specification predicates evaluated on the real outputs.',
+   design_ref='DESIGN.md 6/C16',
+   note='Trusted: int<->float exactness (ints beyond double range excluded), str parsing inside float()/int() abstracted to an error, scale/fidelity not modelled. One defect (OverflowError on inf for an INTEGER parameter) repaired by a fix: commit.',
+   technique='Lean 4 theorem proving (biconditional + structural induction on the conditional tree with fuel) + differential correspondence'),
+ 'C17': dict(
+   text='Lean 4 proofs over a model of the wire (numbers become doubles, bools strings), ParameterValue.cast, the BFS of _trial_to_external_values (queue, remaining dict, parent matching) and the name[i] grouping: each presented value equals the stored one and has the declared type (bool / int / float / str); add_discrete_param auto_cast gives INTEGER iff all feasible values are integral; the presented parameters are a permutation of the active-and-carried parameters under C16\'s recursive definition (any depth); a trial carrying an unknown or inactive parameter is a ValueError, never a shorter dict; indexed names are grouped into one list in stable index order — under tree-unique names; the sibling-unique full statement is refuted by a kernel-checked witness for the code as written (a child of an inactive same-named config is presented) and proved for a by-value variant. Tie: cast grid, regex, trial_parameters and clients.Trial.parameters on a real local service (RAM + SQLite) over generated spaces and trials, every real presentation judged by the Lean predicate.',
+   design_ref='DESIGN.md 6/C17',
+   note='Three known findings (parent looked up by name with same-named configs under different parent values; a Python bool for a CATEGORICAL parameter stored as 1.0; a plain parameter m next to m[i] overwritten). Trusted: ASCII index digits, numeral strings not parsed, the wire model.',
+   technique='Lean 4 theorem proving + differential correspondence with specification predicates on real outputs'),
 }
 
 NOT_YET = 'not yet built in this session (machinery in progress; see DESIGN.md section 7 build order)'
